@@ -856,6 +856,8 @@ func TestVerif_C04(t *testing.T) {
 	chCoq, _ := env.c04Channels(t, res)
 	sb.WriteString("From KM Require Import Model.OIDCChannels.\n")
 	sb.WriteString(chCoq)
+	// ---- 7. peer instances: the artefacts of another member of the deployment, under every shared string setting
+	sb.WriteString(env.c04PeerSection(t, res))
 	if err := ioutil.WriteFile(filepath.Join(verifOut(), "CasesC04.v"), []byte(sb.String()), 0644); err != nil {
 		t.Fatal(err)
 	}
